@@ -222,7 +222,18 @@ def r4(ctx, rep):
     for lp, tests, before, _st in loops:
         sets = sorted({t[0] for t in tests if t[0] in before})
         # one set filled inside the loop (names given so far), one collected BEFORE any name is generated (names columns already have)
-        pre_filled = [nm for nm in sets if "collect" in show(before[nm]["init"], maxdepth=14) and "cols_at_split" in show(before[nm]["init"], maxdepth=14)]
+        def init_text(st0):
+            # the initialiser, and (one level) the body of a private helper of the same file it calls with the split's columns
+            t0 = show(st0["init"], maxdepth=14)
+            i0 = st0["init"]
+            if i0.get("k") == "call" and i0["f"].get("k") == "path":
+                hs = [h for h in syn.fns if h["crate"] == a["crate"] and h["file"] == a["file"] and h["name"] == last_seg(i0["f"]["p"]) and "body" in h]
+                if len(hs) == 1:
+                    hb = show_stmts(hs[0]["body"], maxdepth=14) if hs[0]["body"].get("k") == "block" else show(hs[0]["body"], maxdepth=14)
+                    if ".gen()" not in hb and "ensure_column_name" not in hb:
+                        t0 += " " + hb
+            return t0
+        pre_filled = [nm for nm in sets if "collect" in init_text(before[nm]) and "cols_at_split" in init_text(before[nm])]
         ok = ok or (len(sets) >= 2 and bool(pre_filled))
     # writer / reader agreement on the set that is filled while names are given out: what is entered is the name that was given
     # (the variable the loop tests and regenerates), each time one is given
